@@ -74,10 +74,41 @@ def detect(d, pids, tier="quick", seed="0"):
     return results
 
 
+def detect_scratch(d, pids, tier="quick", seed="0"):
+    """like detect, but on a scratch worktree (BALM_REPO) so that /repo stays untouched"""
+    d = os.path.abspath(d)
+    name = os.path.basename(d)
+    wt = f"/tmp/wt/det-{name}"
+    out = f"/tmp/wt/out-{name}"
+    sh(f"git -C {REPO} worktree remove --force {wt}; rm -rf {out}")
+    rc, o = sh(f"git -C {REPO} worktree add -q --detach {wt} HEAD")
+    assert rc == 0, o
+    results = {}
+    try:
+        rc, o = sh(f"git apply {d}/patch.diff", cwd=wt)
+        assert rc == 0, o
+        for pid in pids:
+            t0 = time.time()
+            env = dict(os.environ, VERIF_SEED=seed, BALM_REPO=wt, VERIF_OUT=out)
+            rc, o = sh(f"{VERIF}/bin/check {pid} --tier {tier}", cwd=VERIF, env=env, timeout=3600)
+            vio = [l for l in o.split("\n") if l.startswith("VIOLATION")]
+            fl = [l for l in o.split("\n") if l.startswith(("FAIL", "DIFF", "BROKEN"))]
+            results[pid] = {"rc": rc, "violation": vio[:1], "why": [x[:300] for x in fl[:2]], "wall": round(time.time() - t0, 1)}
+    finally:
+        sh(f"git -C {REPO} worktree remove --force {wt}; rm -rf {out}")
+    return results
+
+
 if __name__ == "__main__":
     cmd = sys.argv[1]
     if cmd == "validate":
         print(json.dumps(validate(sys.argv[2], run_suite="--nosuite" not in sys.argv), indent=1))
+    elif cmd == "detect-scratch":
+        d = sys.argv[2]
+        pids = [a for a in sys.argv[3:] if not a.startswith("--")]
+        r = detect_scratch(d, pids)
+        json.dump(r, open(os.path.join(d, "detect.json"), "w"), indent=1)
+        print(os.path.basename(os.path.abspath(d)), {p: (v["rc"], (v["violation"] or [""])[0][-60:]) for p, v in r.items()})
     elif cmd == "detect":
         d = sys.argv[2]
         pids = [a for a in sys.argv[3:] if not a.startswith("--")] or [json.load(open(os.path.join(d, "meta.json")))["property"]]
